@@ -651,6 +651,28 @@ pub trait IsOption {}
 
 impl<T> IsOption for Option<T> {}
 
+/// Writes `s` as a TypeScript string literal. Used by `#[derive(TS)]` for variant names, tags
+/// and contents.
+#[doc(hidden)]
+pub fn string_literal(s: impl AsRef<str>) -> String {
+    // `{:?}` escapes quotes, backslashes and control characters the way JavaScript reads them,
+    // except for NUL: `\0` must not be followed by a digit, so it is written `\x00`.
+    let debug = format!("{:?}", s.as_ref());
+    let mut out = String::with_capacity(debug.len());
+    let mut chars = debug.chars();
+    while let Some(c) = chars.next() {
+        out.push(c);
+        if c == '\\' {
+            match chars.next() {
+                Some('0') => out.push_str("x00"),
+                Some(escaped) => out.push(escaped),
+                None => {}
+            }
+        }
+    }
+    out
+}
+
 // generate impls for primitive types
 macro_rules! impl_primitives {
     ($($($ty:ty),* => $l:literal),*) => { $($(
